@@ -4,9 +4,10 @@ package main
 
 import (
 	"fmt"
+	"go/ast"
 	"go/token"
-	"regexp"
 	"go/types"
+	"regexp"
 	"sort"
 	"strings"
 
@@ -14,39 +15,39 @@ import (
 )
 
 type Obligation struct {
-	Name     string // stable name: pkg.func#kind:label
-	Func     string
-	Kind     string
-	Props    []string
-	Assumes  []string
-	Goal     string
-	PathID   int
-	Trace    []string
-	Static   bool // decided without a solver (Goal is "true"/"false")
-	Cover    bool // vacuity probe: expected SAT (goal is the path condition itself)
-	Src      string
-	Decls    []string // filled at emission
-	Result   string   // unsat(discharged) | sat | unknown | timeout | error
-	Solver   string
-	TimeS    float64
-	Model    string
-	Script   string
-	Strings  bool
-	Inputs   map[string]string // symbolic inputs: name -> SMT term (for replay)
+	Name    string // stable name: pkg.func#kind:label
+	Func    string
+	Kind    string
+	Props   []string
+	Assumes []string
+	Goal    string
+	PathID  int
+	Trace   []string
+	Static  bool // decided without a solver (Goal is "true"/"false")
+	Cover   bool // vacuity probe: expected SAT (goal is the path condition itself)
+	Src     string
+	Decls   []string // filled at emission
+	Result  string   // unsat(discharged) | sat | unknown | timeout | error
+	Solver  string
+	TimeS   float64
+	Model   string
+	Script  string
+	Strings bool
+	Inputs  map[string]string // symbolic inputs: name -> SMT term (for replay)
 }
 
 type Exec struct {
-	e        *Engine
-	fn       *ssa.Function
-	fc       *FuncContract
-	pkg      string
-	obs      []*Obligation
-	npaths   int
-	maxPaths int
-	loops    map[*ssa.Function]map[*ssa.BasicBlock]*Loop
-	errs     []string
-	params   map[string]Val
-	paramOrd []string
+	e           *Engine
+	fn          *ssa.Function
+	fc          *FuncContract
+	pkg         string
+	obs         []*Obligation
+	npaths      int
+	maxPaths    int
+	loops       map[*ssa.Function]map[*ssa.BasicBlock]*Loop
+	errs        []string
+	params      map[string]Val
+	paramOrd    []string
 	inlineDepth int
 	clockStable bool
 	inGlobalInv bool
@@ -56,9 +57,9 @@ type Exec struct {
 }
 
 type Loop struct {
-	Ord    int
-	Head   *ssa.BasicBlock
-	Body   map[*ssa.BasicBlock]bool
+	Ord  int
+	Head *ssa.BasicBlock
+	Body map[*ssa.BasicBlock]bool
 }
 
 type Cont struct {
@@ -511,6 +512,25 @@ func (x *Exec) enterBlock(p *Path, b *ssa.BasicBlock, from *ssa.BasicBlock, k *C
 	}
 	p.trace = append(p.trace, fmt.Sprintf("b%d", b.Index))
 	x.execFrom(p, b, 0, k)
+}
+
+var unknownIdentRe = regexp.MustCompile(`unknown identifier "([A-Za-z_][A-Za-z0-9_]*)"`)
+
+// isLocalName: name of a local variable (or named result) of the function under verification.
+func (x *Exec) isLocalName(name string) bool {
+	if x.fn == nil {
+		return false
+	}
+	for _, b := range x.fn.Blocks {
+		for _, in := range b.Instrs {
+			if d, ok := in.(*ssa.DebugRef); ok {
+				if id, ok := d.Expr.(*ast.Ident); ok && id.Name == name {
+					return true
+				}
+			}
+		}
+	}
+	return false
 }
 
 // eventKeysOfContract: the call keys the function's postconditions mention (calls / callarg / callres / before).
@@ -1705,6 +1725,10 @@ func (x *Exec) step(p *Path, in ssa.Instruction) {
 			e.ufun(fn, "(Int) Bool")
 			ok = "(" + fn + " " + xv.Tag + ")"
 			p.assume("(=> " + ok + " (> " + xv.Tag + " 0))")
+			if ai, isI := in.AssertedType.Underlying().(*types.Interface); isI && types.IsInterface(in.X.Type()) && types.Implements(in.X.Type(), ai) {
+				// the static interface type already includes the asserted methods: succeeds iff non-nil
+				p.assume("(=> (> " + xv.Tag + " 0) " + ok + ")")
+			}
 			res = Val{K: KIface, T: in.AssertedType, Tag: xv.Tag, S: xv.S, Label: xv.Label}
 		} else {
 			ok = eq(xv.Tag, e.typeID(in.AssertedType))
@@ -2246,6 +2270,10 @@ func (x *Exec) checkExit(p *Path, res []Val, panicked bool) {
 	for _, c := range clauses {
 		s, err := ctx.EvalBool(c.E)
 		if err != nil {
+			if m := unknownIdentRe.FindStringSubmatch(err.Error()); m != nil && x.isLocalName(m[1]) {
+				// the clause talks about a local variable this exit path never defined (an earlier return): vacuous here
+				continue
+			}
 			x.errorf("%s:%d: %s: %v", c.File, c.Line, kind, err)
 			continue
 		}
